@@ -4,6 +4,7 @@ import json
 import numpy as np
 
 import magpylib as magpy
+from magpylib._src.exceptions import MagpylibBadUserInput
 
 from harness.common import run_guarded
 from harness import octa, level2, l2b
@@ -16,20 +17,45 @@ def exact_signature(case, clause):
 
 
 def shrink_exact(case):
-    def fails(srcs):
-        if not srcs or any("dup" in s for s in srcs):
-            return False
+    """fewest entries, then every collection flattened and with the fewest children that still fail"""
+    def bad(c):
         try:
-            return l2b.c05_oracle(dict(case, sources=srcs)) is not None
+            return l2b.c05_oracle(c) is not None
         except Exception:   # pylint: disable=broad-except
             return False
+
+    def fails(srcs):
+        return bool(srcs) and not any("dup" in s for s in srcs) and bad(dict(case, sources=srcs))
     srcs = level2.resolve(case["sources"])
     small = dict(case, sources=shrink_list(srcs, fails, max_steps=40))
-    try:
-        if l2b.c05_oracle(small) is None:
-            return case
-    except Exception:   # pylint: disable=broad-except
+    if not bad(small):
         return case
+    if small["sumup"] and bad(dict(small, sumup=False)):
+        small = dict(small, sumup=False)
+    same_shapes = len({str(level2.pix_flat(s)[1]) for s in level2.resolve(small["sensors"])}) == 1
+    if small["agg"] and same_shapes and bad(dict(small, agg=0)):
+        small = dict(small, agg=0)
+    sens = level2.resolve(small["sensors"])
+    cand = dict(small, sensors=shrink_list(sens, lambda ss: bool(ss) and bad(dict(small, sensors=ss)), max_steps=10))
+    if bad(cand):
+        small = cand
+    for i, s in enumerate(small["sources"]):
+        if "tree" not in s:
+            continue
+        def with_kids(kids, i=i):
+            srcs2 = list(small["sources"])
+            srcs2[i] = {"tree": {"children": kids, "pos": [[0, 0, 0]], "ori": [octa.IDENT]}}
+            return dict(small, sources=srcs2)
+        # children in DFS order, sensors kept as children
+        def flat(t):
+            out = []
+            for c in t["children"]:
+                out += flat(c) if "children" in c else [c]
+            return out
+        kids = flat(s["tree"])
+        if bad(with_kids(kids)):
+            kids = shrink_list(kids, lambda ks: bool(ks) and bad(with_kids(ks)), max_steps=30)
+            small = with_kids(kids)
     return small
 
 
@@ -126,6 +152,8 @@ def sup_eval(dentries, dobs, field, sumup):
 def sup_fails(dentries, dobs, field, sumup):
     try:
         got, exp, scale = sup_eval(dentries, dobs, field, sumup)
+    except MagpylibBadUserInput:
+        return None              # not a valid source list (e.g. a collection without sources)
     except Exception as e:   # pylint: disable=broad-except
         return "raises", f"raised {type(e).__name__}: {e}"
     if got.shape != exp.shape:
@@ -140,12 +168,37 @@ def sup_fails(dentries, dobs, field, sumup):
     return None
 
 
+def shrink_children(dentries, bad):
+    """every collection flattened (sensors kept) and reduced to the fewest children that still fail"""
+    def flat(d):
+        out = []
+        for c in d["children"]:
+            out += flat(c) if c["class"] == "Collection" else [c]
+        return out
+    cur = list(dentries)
+    for i, d in enumerate(cur):
+        if d["class"] != "Collection":
+            continue
+        def with_kids(kids, i=i, d=d):
+            c2 = list(cur)
+            c2[i] = dict(d, children=kids)
+            return c2
+        kids = flat(d)
+        if bad(with_kids(kids)):
+            kids = shrink_list(kids, lambda ks: bool(ks) and bad(with_kids(ks)), max_steps=20)
+            cur = with_kids(kids)
+    return cur
+
+
 def entry_layout(dentries):
     def nleaves(d):
         if d["class"] == "Collection":
             return sum(nleaves(c) for c in d["children"])
         return 0 if d["class"] == "Sensor" else 1
-    return ",".join("C%d" % nleaves(d) if d["class"] == "Collection" else "B" for d in dentries)
+    def has_sensor(d):
+        return any(c["class"] == "Sensor" or (c["class"] == "Collection" and has_sensor(c)) for c in d["children"])
+    return ",".join("C%d%s" % (nleaves(d), "+S" if has_sensor(d) else "") if d["class"] == "Collection" else "B"
+                    for d in dentries)
 
 
 def sup_search(ctx, n):
@@ -171,7 +224,10 @@ def sup_search(ctx, n):
         res = sup_fails(dentries, dobs, field, sumup)
         if res is None:
             continue
+        if sumup and sup_fails(dentries, dobs, field, False) is not None:
+            sumup = False
         small = shrink_list(dentries, lambda ds: bool(ds) and sup_fails(ds, dobs, field, sumup) is not None, max_steps=30)
+        small = shrink_children(small, lambda ds: sup_fails(ds, dobs, field, sumup) is not None)
         res2 = sup_fails(small, dobs, field, sumup) or res
         ctx.impl_fail(f"{res2[0]}/{entry_layout(small)}", res2[1] + " (real classes)",
                       {"kind": "float-sup", "entries": small, "observers": dobs, "field": field, "sumup": sumup})
